@@ -86,28 +86,21 @@ Proof.
   rewrite Hk. reflexivity.
 Qed.
 
-Definition inherited (tb : ctable) (d : cdef) : mapping :=
-  match cd_base d with Some b => match alookup b tb with Some m => m | None => [] end | None => [] end.
-
-Definition decorated (tb : ctable) (d : cdef) : mapping :=
-  if isnil (cd_names d) && isnil (cd_maps d) then inherited tb d
-  else dict_or (dict_or (inherited tb d) (map (fun n => (n, n)) (cd_names d))) (cd_maps d).
-
-Lemma decorate_eq tb d : decorate tb d = tb ++ [(cd_cls d, decorated tb d)].
-Proof. unfold decorate, decorated, inherited. destruct (isnil (cd_names d) && isnil (cd_maps d)); reflexivity. Qed.
-
-(* inherited-then-own override, and every other class keeps its mapping *)
-Theorem decorator_pure tb d : NoDup (map fst (cd_maps d)) ->
-  firstn (length tb) (decorate tb d) = tb /\
-  forall e, alookup e (decorated tb d) = expect_lookup (inherited tb d) (cd_names d) (cd_maps d) e.
+(* inherited-then-own override for the new class (what it inherits is what
+   Python's attribute lookup along its MRO finds), a class decorated with
+   event_handler() reads exactly what it inherits, and every other class keeps
+   its mapping *)
+Theorem decorator_pure info tb d mro : NoDup (map fst (cd_maps d)) ->
+  firstn (length tb) (decorate info tb d mro) = tb /\
+  (empty_deco d = true -> decorated info tb d mro = inherited info tb mro) /\
+  (empty_deco d = false -> exists m, decorated info tb d mro = Some m /\
+     forall e, alookup e m = expect_lookup (or_empty (inherited info tb mro)) (cd_names d) (cd_maps d) e).
 Proof.
-  intro N. split.
-  - rewrite decorate_eq. rewrite firstn_app, Nat.sub_diag, firstn_all. cbn [firstn]. apply app_nil_r.
-  - intro e. unfold decorated, expect_lookup.
-    destruct (isnil (cd_names d) && isnil (cd_maps d)) eqn:E.
-    + apply andb_true_iff in E. destruct E as [E1 E2].
-      destruct (cd_names d); [|discriminate]. destruct (cd_maps d); [|discriminate]. reflexivity.
-    + rewrite (alookup_dict_or_maps e _ N). rewrite alookup_dict_or_names. reflexivity.
+  intro N. split; [|split].
+  - unfold decorate. rewrite firstn_app, Nat.sub_diag, firstn_all. cbn [firstn]. apply app_nil_r.
+  - intro E. unfold decorated. rewrite E. reflexivity.
+  - intro E. unfold decorated. rewrite E. eexists. split; [reflexivity|]. intro e. unfold expect_lookup.
+    rewrite (alookup_dict_or_maps e _ N). rewrite alookup_dict_or_names. reflexivity.
 Qed.
 
 Lemma sub_map_lookup m1 m2 e v : sub_map m1 m2 = true -> alookup e m1 = Some v -> alookup e m2 = Some v.
@@ -126,7 +119,7 @@ Proof.
 Qed.
 
 Lemma ctable_eqb_snoc tb c M ob : ctable_eqb (tb ++ [(c, M)]) ob = true ->
-  exists front m, split_last ob = Some (front, (c, m)) /\ ctable_eqb tb front = true /\ mapping_eqb M m = true.
+  exists front m, split_last ob = Some (front, (c, m)) /\ ctable_eqb tb front = true /\ omapping_eqb M m = true.
 Proof.
   revert ob. induction tb as [|[c1 m1] tb IH]; intros ob H.
   - cbn [app ctable_eqb] in H. destruct ob as [|[c2 m2] [|x ob]]; try discriminate.
@@ -143,18 +136,22 @@ Qed.
 Lemma optz_eqb_refl a : optz_eqb a a = true.
 Proof. destruct a; cbn; [apply Z.eqb_refl|reflexivity]. Qed.
 
-Lemma cls_run_spec ds : forall tb,
+Lemma cls_run_spec ds : forall info tb,
   forallb (fun dob => nodupb (map fst (cd_maps (fst dob)))) ds = true ->
-  cls_run tb ds = true -> cls_spec tb ds = true.
+  cls_run info tb ds = true -> cls_spec info tb ds = true.
 Proof.
-  induction ds as [|[d ob] ds IH]; intros tb W H; [reflexivity|].
+  induction ds as [|[d ob] ds IH]; intros info tb W H; [reflexivity|].
   cbn [cls_run cls_spec forallb fst] in *. apply andb_true_iff in W. destruct W as [W1 W2].
-  apply andb_true_iff in H. destruct H as [H1 H2]. rewrite (IH ob W2 H2), andb_true_r.
-  rewrite decorate_eq in H1. destruct (ctable_eqb_snoc _ _ _ _ H1) as [front [m [S [F Mq]]]].
+  apply andb_true_iff in H. destruct H as [H H2]. apply andb_true_iff in H. destruct H as [_ H1].
+  rewrite (IH _ _ W2 H2), andb_true_r.
+  unfold decorate in H1. destruct (ctable_eqb_snoc _ _ _ _ H1) as [front [m [S [F Mq]]]].
   unfold cls_spec_step. rewrite S, F, Z.eqb_refl. cbn [andb].
-  apply forallb_forall. intros e _. fold (inherited tb d).
-  rewrite <- (mapping_eqb_lookup _ _ e Mq).
-  destruct (decorator_pure tb d (nodupb_NoDup _ W1)) as [_ Hd]. rewrite Hd. apply optz_eqb_refl.
+  destruct (decorator_pure info tb d (co_mro ob) (nodupb_NoDup _ W1)) as [_ [De Dn]].
+  destruct (empty_deco d) eqn:E.
+  - rewrite (De eq_refl) in Mq. exact Mq.
+  - destruct (Dn eq_refl) as [M [EM HM]]. rewrite EM in Mq. destruct m as [m|]; [|discriminate].
+    cbn [omapping_eqb] in Mq. apply forallb_forall. intros e _.
+    rewrite <- (mapping_eqb_lookup _ _ e Mq). rewrite HM. apply optz_eqb_refl.
 Qed.
 
 Lemma wf_classes_maps c : wf_classes c = true ->
@@ -170,6 +167,6 @@ Proof.
   unfold known3_b in K. apply negb_false_iff in K.
   unfold holds3_case_b. pose proof (accepts_holdsq c W1 K A) as Hq.
   unfold accepts in A. apply andb_true_iff in A. destruct A as [A _].
-  rewrite (cls_run_spec _ [] (wf_classes_maps c W1) A). cbn [andb].
+  rewrite (cls_run_spec _ [] [] (wf_classes_maps c W1) A). cbn [andb].
   exact (holdsq_holds3 _ _ W2 Hq).
 Qed.
